@@ -27,6 +27,10 @@ fn classing(kind: &str, slots: &[usize]) -> Classing {
         .enumerate()
         .map(|(i, n)| (Class(i as u8), *n))
         .collect();
+    // same list order as the harness that recorded the script (cfg.rs: ClassKind::classing)
+    let mut classes = classes;
+    let rot = slots.iter().sum::<usize>() % classes.len();
+    classes.rotate_left(rot);
     match kind {
         "simple" => Classing::new(&classes, Class(1), simple_policy),
         "movable" => Classing::new(&classes, Class(2), movable_policy),
